@@ -8,67 +8,10 @@
 (* so that coverage shows every row visited; every row is exported and     *)
 (* compared with the implementation's matrix factory.                      *)
 (***************************************************************************)
-EXTENDS Laurent, TLC, Json
+EXTENDS GateDefs, TLC, Json
 
 VARIABLE g          \* index into Names
 CONSTANT Emitting
-
-c(x) == SPConst(x)
-M2(a, b, cc, d) == <<<<a, b>>, <<cc, d>>>>
-Diag4(a, b, cc, d) == <<<<a, SPZero, SPZero, SPZero>>, <<SPZero, b, SPZero, SPZero>>, <<SPZero, SPZero, cc, SPZero>>, <<SPZero, SPZero, SPZero, d>>>>
-O == SPZero
-I1 == SPOne
-isin(j) == SPMul(ISP, SinH(j))                  \* i sin(angle_j/2)
-nisin(j) == SPNeg(isin(j))                      \* -i sin(angle_j/2)
-invsqrt2 == c(CInvSqrt2)
-
-XM == M2(O, I1, I1, O)
-YM == M2(O, c(CNegI), c(CI), O)
-ZM == M2(I1, O, O, c(CMinus))
-HM == M2(invsqrt2, invsqrt2, invsqrt2, SPNeg(invsqrt2))
-SM == M2(I1, O, O, c(CI))
-TM == M2(I1, O, O, c(CW))
-SXM == LET p == c(CMul(CHalf, CAdd(COne, CI))) m == c(CMul(CHalf, CSub(COne, CI))) IN M2(p, m, m, p)
-RXM == M2(CosH(1), nisin(1), nisin(1), CosH(1))
-RYM == M2(CosH(1), SPNeg(SinH(1)), SinH(1), CosH(1))
-RZM == M2(Z(1, -1), O, O, Z(1, 1))
-RHM == LET s == SPMul(c(CMul(CNegI, CInvSqrt2)), SinH(1)) IN       \* -i/sqrt2 * sin
-       PMScale(Z(1, 1), M2(SPAdd(CosH(1), s), s, s, SPAdd(CosH(1), SPNeg(s))))
-PHASEM == M2(I1, O, O, Z(1, 2))
-\* U3(theta, phi, lambda) = RZ(phi) RY(theta) RZ(lambda) * e^{i(phi+lambda)/2};  z1 = theta, z2 = phi, z3 = lambda
-RZv(j) == M2(Z(j, -1), O, O, Z(j, 1))
-U3M == PMScale(SPMul(Z(2, 1), Z(3, 1)), PMMul(RZv(2), PMMul(RYM, RZv(3))))
-GPiM == M2(O, Z(1, -2), Z(1, 2), O)
-GPi2M == PMScale(invsqrt2, M2(I1, SPMul(c(CNegI), Z(1, -2)), SPMul(c(CNegI), Z(1, 2)), I1))
-CNOTM == <<<<I1, O, O, O>>, <<O, I1, O, O>>, <<O, O, O, I1>>, <<O, O, I1, O>>>>
-CZM == Diag4(I1, I1, I1, c(CMinus))
-SWAPM == <<<<I1, O, O, O>>, <<O, O, I1, O>>, <<O, I1, O, O>>, <<O, O, O, I1>>>>
-ISWAPM == <<<<I1, O, O, O>>, <<O, O, c(CI), O>>, <<O, c(CI), O, O>>, <<O, O, O, I1>>>>
-CPHASEM == Diag4(I1, I1, I1, Z(1, 2))
-XXM == <<<<CosH(1), O, O, nisin(1)>>, <<O, CosH(1), nisin(1), O>>, <<O, nisin(1), CosH(1), O>>, <<nisin(1), O, O, CosH(1)>>>>
-YYM == <<<<CosH(1), O, O, isin(1)>>, <<O, CosH(1), nisin(1), O>>, <<O, nisin(1), CosH(1), O>>, <<isin(1), O, O, CosH(1)>>>>
-ZZM == Diag4(Z(1, -1), Z(1, 1), Z(1, 1), Z(1, -1))
-XYM == <<<<I1, O, O, O>>, <<O, CosH(1), isin(1), O>>, <<O, isin(1), CosH(1), O>>, <<O, O, O, I1>>>>
-\* MS(phi0, phi1): z1 = phi0, z2 = phi1;  e^{-i(phi0+phi1)} = z1^-2 z2^-2
-ZZ2(a, b) == SPMul(Z(1, a), Z(2, b))
-MSM == PMScale(invsqrt2,
-        <<<<I1, O, O, SPMul(c(CNegI), ZZ2(-2, -2))>>,
-          <<O, I1, SPMul(c(CNegI), ZZ2(-2, 2)), O>>,
-          <<O, SPMul(c(CNegI), ZZ2(2, -2)), I1, O>>,
-          <<SPMul(c(CNegI), ZZ2(2, 2)), O, O, I1>>>>)
-IM == PMId(2)
-
-Row(name, nq, np, herm, poly) == [name |-> name, nq |-> nq, np |-> np, herm |-> herm, poly |-> poly]
-Table == <<
-  Row("X", 1, 0, TRUE, XM), Row("Y", 1, 0, TRUE, YM), Row("Z", 1, 0, TRUE, ZM), Row("H", 1, 0, TRUE, HM),
-  Row("I", 1, 0, TRUE, IM), Row("S", 1, 0, FALSE, SM), Row("SX", 1, 0, FALSE, SXM), Row("T", 1, 0, FALSE, TM),
-  Row("RX", 1, 1, FALSE, RXM), Row("RY", 1, 1, FALSE, RYM), Row("RZ", 1, 1, FALSE, RZM), Row("RH", 1, 1, FALSE, RHM),
-  Row("PHASE", 1, 1, FALSE, PHASEM), Row("U3", 1, 3, FALSE, U3M), Row("GPi", 1, 1, TRUE, GPiM), Row("GPi2", 1, 1, FALSE, GPi2M),
-  Row("CNOT", 2, 0, TRUE, CNOTM), Row("CZ", 2, 0, TRUE, CZM), Row("SWAP", 2, 0, TRUE, SWAPM), Row("ISWAP", 2, 0, FALSE, ISWAPM),
-  Row("CPHASE", 2, 1, FALSE, CPHASEM), Row("XX", 2, 1, FALSE, XXM), Row("YY", 2, 1, FALSE, YYM), Row("ZZ", 2, 1, FALSE, ZZM),
-  Row("XY", 2, 1, FALSE, XYM), Row("MS", 2, 2, FALSE, MSM), Row("Delay", 1, 1, TRUE, IM) >>
-GroupGates == {"RX", "RY", "RZ", "RH", "PHASE", "CPHASE", "XX", "YY", "ZZ", "XY"}
-ByName(n) == LET i == CHOOSE j \in 1..Len(Table) : Table[j].name = n IN Table[i]
 
 Init == g = 1
 Next == g < Len(Table) /\ g' = g + 1
